@@ -52,7 +52,7 @@ PROPS = {
     level_text="Unbounded proof: Tokenizer::next ensures tok_post: only whitespace skipped, span in bounds on char boundaries, cursor at span end, token text = source slice (string payload between equal quotes with no such quote inside, number parses to the carried Decimal); keyword::is_op is the disjunction of the registry predicates.",
     level_note="Classification rules beyond text/span (longest operator, word operators, function look-ahead) are not all proved.",
     not_covered=["classification clauses (v) of DESIGN.md C10"]),
- 'C12': dict(units=['pr'], assumptions=[A1, A2, A3, A6],
+ 'C12': dict(units=['pr', 'tp'], assumptions=[A1, A2, A3, A6],
     level_text="Unbounded proof: expr(t)@ == render(t) for every AST, render written from the grammar (parenthesisation rules per position, quote choice, separators). That render inverts the parser needs parser completeness (not proved).",
     always_bounded=dict(function='round trip parse -> expr() -> parse through the real parser (that render inverts the parser)', categories=['parse'],
         why="expr() is proved equal to the spec function render; that render is a right inverse of the real parser needs parser completeness, which is outside the contracts' reach",
